@@ -142,7 +142,7 @@ def run(F, R):
             R.check("C08-R2", "value:" + str(S.nodes[x].loc().split(":")[-1]) if False else "value:" + _k(S, x), all(s_ == "Some{now(param1.0.time_source)}" or s_.startswith("Some{now(") for s_ in v), str(v), "last_update_time is set to %s, expected Some(time_source.now())" % v, S.nodes[x].loc())
     # an HTTP-status failure is a request failure, not a server answer: the exchange function hands a response on (Ok)
     # only under `status.is_success()`; every other status leaves it as an error
-    exv = [BV.of(b) for b in c.bodies if b["kind"] == "coroutine" and any(t.get("trait") == "cup_ecdsa::Cupv2RequestHandler" and t.get("name") == "verify_response" for _, t in BV.of(b).calls())]
+    exv = [BV.of(b) for b in c.bodies if b["kind"] == "coroutine" and lib.calls_verify_response(BV.of(b))]
     if R.floor("C08-R2", "exchange function (caller of verify_response)", len(exv), 1):
         xv = exv[0]
         succ_e = [(a, b) for (a, b, tr) in xv.bool_edges(lambda t: t[0] == "call" and lib.norm(t[1]) == "http::StatusCode::is_success") if tr]
